@@ -74,7 +74,7 @@ LongStringD(v, d) == [k |-> "string", v |-> v, long |-> TRUE, delim |-> d]
 Int(v)    == [k |-> "int", v |-> v]          \* value as a decimal digit string
 Float(v)  == [k |-> "float", v |-> v]        \* shortest decimal representation
 RTime(v)  == [k |-> "rtime", v |-> v]
-Bool(v)   == [k |-> "bool", v |-> v]
+Bool(v)   == [k |-> "bool", b |-> v]         \* (field b, not v: TLC must never compare a boolean with a string value)
 Prefix(o, r)   == [k |-> "prefix", op |-> o, right |-> r]
 Infix(o, l, r) == [k |-> "infix", op |-> o, left |-> l, right |-> r]
 Juxt(l, r)     == [k |-> "infix", op |-> "juxt", left |-> l, right |-> r]   \* concatenation written without +
@@ -117,7 +117,7 @@ Render(t) ==
     [] t.k = "int"     -> <<TV("INT", t.v, t.v)>>
     [] t.k = "float"   -> <<TV("FLOAT", t.v, t.v)>>
     [] t.k = "rtime"   -> <<TV("RTIME", t.v, t.v)>>
-    [] t.k = "bool"    -> <<Kw(IF t.v THEN "true" ELSE "false")>>
+    [] t.k = "bool"    -> <<Kw(IF t.b THEN "true" ELSE "false")>>
     [] t.k = "prefix"  -> <<Op(t.op)>> \o Render(t.right)
     [] t.k = "infix"   -> Render(t.left) \o (IF t.op = "juxt" THEN <<>> ELSE <<Op(t.op)>>) \o Render(t.right)
     [] t.k = "postfix" -> Render(t.left) \o <<Op(t.op)>>
